@@ -7,6 +7,19 @@ rnd = sys.argv[2] if len(sys.argv) > 2 else '1'
 props = {json.loads(l)['id']: json.loads(l) for l in open('/verif/properties.jsonl')}
 EXTRA = {
  '1': '',
+ '6': ('\nThis is a SIXTH round with a THEME: new features, bug fixes and performance work that go subtly wrong.  Each '
+       'change must look like a commit a maintainer would merge: (a) a NEW FEATURE -- a new optional parameter, a new public '
+       'method or property, support for one more LaTeX construct (a new environment name, a new argument form, a new math '
+       'delimiter, a new option), a convenience overload accepting more input types; (b) a BUG FIX for a real oddity of the '
+       'current behaviour that over-reaches and changes more than it should; (c) a PERFORMANCE change -- avoiding repeated '
+       'work, replacing a list by a generator or the other way round, slicing instead of looping, building a lookup table or '
+       'index, short-circuiting on a cheap test first, reusing objects instead of creating them.  The new feature itself '
+       'should work; the property must break as a SIDE EFFECT for inputs that do not even use the feature (or only in a corner '
+       'of it).  Produce THREE changes (A, B and C, in {out}/A, {out}/B, {out}/C), one of each kind if you can, each with a '
+       'one-line commit message at the top of notes.txt.  IMPORTANT: never use `git stash` (it is shared between all '
+       'worktrees of this repository); to test against the pristine tree use `git -C <worktree> diff > saved.diff; git -C '
+       '<worktree> checkout -- .` and re-apply with `git apply`.  Keep your individual messages short; write long content to '
+       'files.  Do not spend more than about 40 minutes: if a third change is hard to find, deliver two.\n'),
  '5': ('\nThis is a FIFTH round with a THEME: well-meant maintenance commits that go subtly wrong.  Each change must look '
        'like something a linter, a reviewer or a "modernise the code base" pass would suggest -- and be ALMOST behaviour '
        'preserving: flake8/pylint-style rewrites (`== None` vs `is None`, `if not x` vs `if x is None` / `len(x) == 0`, '
